@@ -1,18 +1,31 @@
-"""C08 - XML Schema structure validation: SchemaStruct specification, binder T (every schema of the template family
-rendered to XSD, loaded once per configuration, every instance of its bounded instance set validated).
+"""C08 - XML Schema structure validation: SchemaStruct specification, binder T.
 
-Mutants (mutants/C08/*.diff, `./bin/mutant-run C08 mutants/C08/*.diff`): see the list at the end of this docstring;
-each is DETECTED by the quick tier.
+Specification (spec/SchemaStruct.tla): a typed schema model (element declarations, complex types with derivation, particles
+with occurrence ranges over sequence / choice / all, wildcards, substitution groups, attribute uses, value constraints) and an
+instance model; DECLARATIVE layer = Structures 1.0 validity (InLang / Valid / UPADecl / RestrictOK); OPERATIONAL layer shaped
+like the code (Expand = ComplexTypeInfo::expandContentModel incl. the counting leaf, Deriv/Nullable/Cons = DFAContentModel +
+AllContentModel + laxElementValidation, StartTag/FeedItem/EndTag = SchemaValidator::validateElement / checkContent).
+TLC checks Agree, SameAsFold, UPAClean, UPAAgree (+ ASSUME RestrictSound) over the template family S1-S11, S13, S14.
+
+Binder T (spec/SchemaStructGen.tla -> harness/xsd_harness.cpp): one line per schema with all its instances; the schema is
+rendered to XSD, loaded once per configuration (DOM / SAX2 x IGXMLScanner / SGXMLScanner x full checking off / on) with
+loadGrammar + grammar caching, every instance validated; compared: schema load result, verdict (validity error / none; a
+fatal error or exception is never allowed), error-kind class, and for valid instances the root's type name (DOMTypeInfo /
+PSVI), its attributes after defaulting and the element default text.
 
 Genuine defects of the pinned tree found by this check are listed in known_findings.d/C08.json (printed as
 KNOWN-FINDING, exit 0); every other disagreement is a VIOLATION.
 
-Mutants demonstrated:
-  counting_max_off_by_one   DFAContentModel::handleRepetitions ++loop > max  ->  >= max + 2            (S1/S4 a{2,3})
-  other_admits_tns          ##other wildcard admits the target namespace (DFAContentModel + scanners)  (S5)
-  nil_content_accepted      SchemaValidator::checkContent: NilAttrNotEmpty test dropped                (S8)
-  prohibited_attr_accepted  scanner attribute pass: ProhibitedAttributePresent branch removed         (S9)
-  all_duplicate_accepted    AllContentModel: duplicate element test removed                            (S3)
+Mutants (mutants/C08/*.diff, `./bin/mutant-run C08 mutants/C08/*.diff`), all DETECTED by the quick tier:
+  counting_max_off_by_one            DFAContentModel::handleRepetitions: ++loop > max + 1                    (S1/S2/S4: a{2,3}, a{0,2})
+  other_admits_tns                   DFAContentModel::validateContent: ##other admits the target namespace   (S5)
+  nil_content_accepted               SchemaValidator::checkContent: character content of a nilled element    (S8)
+  prohibited_attr_accepted           IGXMLScanner buildAttList: ProhibitedAttributePresent never raised      (S9, S11)
+  all_duplicate_accepted             AllContentModel::validateContent: duplicate optional child accepted     (S3)
+  block_substitution_needs_abstract  SubstitutionGroupComparator: block="substitution" ignored               (S6)
+  xsitype_block_first_step_only      SchemaValidator::validateElement: block checked on the last step only   (S7)
+Non-vacuity was also shown by corrupting expected fields of generated lines (a verdict, a load result, a defaulted
+attribute value): each corruption is reported as a mismatch.
 """
 import json
 import os
@@ -24,8 +37,8 @@ META = dict(
     technique="explicit TLA+ specification (SchemaStruct) of XML Schema 1.0 structure validation model-checked with TLC (operational "
               "content-model automaton with occurrence counters and per-element validation ladder = declarative Structures validity); "
               "every schema of the template family rendered to XSD and every bounded instance validated by xerces-c (T)",
-    text="TLC checks exhaustively, for the template family S1-S10/S13/S14 (occurrence ranges, choice, all-groups, nesting, wildcards, "
-         "substitution groups, xsi:type, xsi:nil, attribute uses, content kinds, UPA, value constraints) and all instances up to the "
+    text="TLC checks exhaustively, for the template family S1-S11/S13/S14 (occurrence ranges, choice, all-groups, nesting, wildcards, "
+         "substitution groups, xsi:type, xsi:nil, attribute uses, content kinds, derivation, UPA, value constraints) and all instances up to the "
          "bound, that the code-shaped validator (expansion + counting automaton + validateElement/checkContent ladder) raises no error "
          "exactly for the instances that are valid per XML Schema 1.0 Structures; each schema is rendered to XSD text, loaded once per "
          "configuration (DOM/SAX2 x IGXMLScanner/SGXMLScanner x full checking off/on) and every instance is validated; verdict "
@@ -41,9 +54,9 @@ CONSTS = {
 }
 
 
-def _pipe(out, module, cfg, exe, timeout=9000, nproc=8, workers=8):
+def _pipe(out, module, cfg, exe, timeout=12000, nproc=8, workers=8):
     p = C.Piper([exe, "t"], timeout=timeout, nproc=nproc)
-    res = C.tlc(module, cfg, workers=workers, on_chunk=p.feed_chunk, timeout=timeout, heap="8g")
+    res = C.tlc(module, cfg, workers=workers, on_chunk=p.feed_chunk, timeout=timeout, heap="6g")
     p.close()
     if not res.ok:
         raise C.InfraError("TLC generator %s/%s failed: rc=%s\n%s" % (module, cfg, res.rc, "\n".join(res.text[-40:])))
@@ -73,9 +86,23 @@ def run(out, tier):
     C.build_lib("hooks")
     exe = C.build_harness("xsd_harness")
     cov = out.coverage
+    # 2. (started first, runs concurrently) T: every schema of the family, every instance
+    import threading
+    box = {}
+
+    def gen():
+        try:
+            box["r"] = _pipe(out, "SchemaStructGen", k["gen"], exe, workers=6)
+        except BaseException as ex:     # re-raised in the main thread
+            box["ex"] = ex
+    th = threading.Thread(target=gen, daemon=True)
+    th.start()
     # 1. the specification satisfies C08 on itself: operational verdict = declarative validity, UPA of the family
-    r = C.tlc("SchemaStruct", k["check"], workers=8, coverage=True, timeout=9000, heap="8g")
+    r = C.tlc("SchemaStruct", k["check"], workers=8, coverage=True, timeout=12000, heap="6g")
+    th.join()
     C.tlc_must_pass(r, "SchemaStruct/" + k["check"])
+    if "ex" in box:
+        raise box["ex"]
     cov["states"] = r.distinct
     cov["transitions"] = r.generated
     cov["spec_check"] = r.summary()
@@ -85,8 +112,7 @@ def run(out, tier):
     cov["spec_actions_never_taken"] = never
     if never:
         raise C.InfraError("specification actions never taken: %s" % never)
-    # 2. T: every schema of the family, every instance
-    rg, st, p = _pipe(out, "SchemaStructGen", k["gen"], exe)
+    rg, st, p = box["r"]
     cov["T"] = dict(schemas=st.get("schemas", 0), loads=st.get("loads", 0), parses=st.get("parses", 0),
                     expected_valid=st.get("exp_valid", 0), expected_invalid=st.get("exp_invalid", 0),
                     kind_checked=st.get("kind_checked", 0), info_checked=st.get("info_checked", 0),
